@@ -149,6 +149,38 @@ def run_case(case):
                 cov['rebuild_after_inplace_edit'] = 1
                 if not (e2 <= TOL):
                     bad.append((ident + '/stale-after-inplace-edit', '%s on %s %r: after an in-place edit of the coefficient object the rebuilt matrix and the explicit chain disagree (normalised %.3g)' % (ident, cls, meta['n'], e2)))
+            if not bad:
+                # the field reaches the variable through the variable API instead of the constructor: update_value() from another
+                # variable (the hand-over of every explicit time loop), or copy() of a variable whose original is edited afterwards.
+                # The source satisfies its (default) boundary conditions, so "the field including its boundary values" is the source's
+                # stored array whether the hand-over copies boundary values or recomputes them.
+                inner = tuple(slice(1, -1) for _ in range(g.nd))
+                f3, _ = gen.cell_field(rng, g.full_shape(), 'random')
+                f4, _ = gen.cell_field(rng, g.full_shape(), 'random')
+                src = pf.CellVariable(m, f3[inner].copy())
+                field = np.array(np.asarray(src._value), dtype=float, copy=True)
+                how = str(rng.choice(['update_value', 'copy-then-edit-setter', 'copy-then-edit-slice', 'copy-then-update_value']))
+                if how == 'update_value':
+                    var = pf.CellVariable(m, f4[inner].copy())
+                    var.update_value(src)
+                else:
+                    var = src.copy()
+                    if how.endswith('setter'):
+                        src.value = f4[inner]
+                    elif how.endswith('slice'):
+                        src.value[...] = f4[inner]
+                    else:
+                        src.update_value(pf.CellVariable(m, f4[inner].copy()))
+                Mh = M2 if fv._xvalue.dtype.kind == 'f' else M
+                Ah = interior_rows_dense(Mh, g)
+                rh = np.asarray(chain(var)).ravel()[rows]
+                lh = Ah @ field.ravel()
+                sch = np.abs(Ah) @ np.abs(field.ravel())
+                e3 = nerr(lh, rh, sch + np.abs(rh))
+                maxerr[ident + '-handed-over'] = e3
+                cov['field_handed_over:' + how] = 1
+                if not (e3 <= TOL):
+                    bad.append((ident + '/handed-over-field', '%s on %s %r: the explicit chain evaluated on a variable that received its field by %s differs from the matrix applied to that field incl. its boundary values (normalised %.3g)' % (ident, cls, meta['n'], how, e3)))
         elif ident == 'tvd-zero':
             bad_here = False
             for rep in range(3):
